@@ -56,6 +56,17 @@ CHECKS = {
             "adjoint under the Unitary cond, triangular solve), forwarding of the algorithm argument, the lazy iterative inverse calling alg(A, X), and that Auto is exhaustive and "
             "chooses PSD-only algorithms only where its guard implies PSD.",
             "Residual sizes, tolerances, conditioning and the numerical effect of the 10^6 threshold are not decided. Dispatch of every (kind, algorithm) pair is C04; densification is C19.", "4/C06"),
+    "C09": ("term rewriting of the apply_unary / exp / log / pow / sqrt / isqrt rules; decision table of the Auto rule",
+            "Decides the algebraic shape of every matrix-function rule: dense paths must be V f(D) V^-1 with V^-1 written as V^H only for the unitary eigenvectors of eigh; structural "
+            "rules (Diagonal, BlockDiag with multiplicities, Identity, ScalarMul, Transpose, Adjoint, exp of a Kronecker sum, pow of a Kronecker product) must equal f of the operand "
+            "kind's defining expression; sqrt/isqrt must be pow with exponent +-1/2; the integer shortcuts of pow (0 -> I, 1..9 -> k-fold product, -1 -> inv with the algorithm map); "
+            "f and alg are forwarded; Auto chooses Eigh/Lanczos only under a guard implying SelfAdjoint.",
+            "The Krylov paths (LanczosUnary, ArnoldiUnary), branch choice and accuracy are not decided.", "4/C09"),
+    "C11": ("term rewriting / structural comparison of the cholesky and plu rules",
+            "Structure-level: Kronecker / BlockDiag rules must rebuild the same composite kind from the factor-wise decompositions in order (multiplicities kept), component i of every "
+            "plu rule must play role i, base cases must hand A itself (not a symmetrised or transposed variant) to the backend factorisation and wrap the factors with lower=True / "
+            "True / False, Diagonal|ScalarMul rules return sqrt(A).",
+            "L L^H = A and P L U = A as numbers and positive-definiteness are not decided; densification is C19.", "4/C11"),
 }
 
 NOT_APPLICABLE = {
